@@ -580,7 +580,7 @@ impl<'a> Writer<'a> {
     ) -> Result<()> {
         self.with_rollback(|this| {
             this.change_section_to_answer()?;
-            this.add_rr(owner, rr_type, class, ttl, rdata, hint_pointer_vec)?;
+            this.add_rr(owner, rr_type, class, ttl.into(), rdata, hint_pointer_vec)?;
             if let Some(new_ancount) = this.ancount.checked_add(1) {
                 this.ancount = new_ancount;
                 Ok(())
@@ -605,7 +605,8 @@ impl<'a> Writer<'a> {
     ) -> Result<()> {
         self.with_rollback(|this| {
             this.change_section_to_answer()?;
-            let n_added = this.add_rrset(owner, rr_type, class, ttl, rdatas, hint_pointer_vec)?;
+            let n_added =
+                this.add_rrset(owner, rr_type, class, ttl.into(), rdatas, hint_pointer_vec)?;
             if n_added > u16::MAX as usize {
                 Err(Error::CountOverflow)
             } else if let Some(new_ancount) = this.ancount.checked_add(n_added as u16) {
@@ -645,7 +646,7 @@ impl<'a> Writer<'a> {
     ) -> Result<()> {
         self.with_rollback(|this| {
             this.change_section_to_authority()?;
-            this.add_rr(owner, rr_type, class, ttl, rdata, hint_pointer_vec)?;
+            this.add_rr(owner, rr_type, class, ttl.into(), rdata, hint_pointer_vec)?;
             if let Some(new_nscount) = this.nscount.checked_add(1) {
                 this.nscount = new_nscount;
                 Ok(())
@@ -671,7 +672,8 @@ impl<'a> Writer<'a> {
     ) -> Result<()> {
         self.with_rollback(|this| {
             this.change_section_to_authority()?;
-            let n_added = this.add_rrset(owner, rr_type, class, ttl, rdatas, hint_pointer_vec)?;
+            let n_added =
+                this.add_rrset(owner, rr_type, class, ttl.into(), rdatas, hint_pointer_vec)?;
             if n_added > u16::MAX as usize {
                 Err(Error::CountOverflow)
             } else if let Some(new_nscount) = this.nscount.checked_add(n_added as u16) {
@@ -711,7 +713,7 @@ impl<'a> Writer<'a> {
     ) -> Result<()> {
         self.with_rollback(|this| {
             this.section = Section::Additional;
-            this.add_rr(owner, rr_type, class, ttl, rdata, hint_pointer_vec)?;
+            this.add_rr(owner, rr_type, class, ttl.into(), rdata, hint_pointer_vec)?;
             if let Some(new_arcount) = this.arcount.checked_add(1) {
                 this.arcount = new_arcount;
                 Ok(())
@@ -736,7 +738,8 @@ impl<'a> Writer<'a> {
     ) -> Result<()> {
         self.with_rollback(|this| {
             this.section = Section::Additional;
-            let n_added = this.add_rrset(owner, rr_type, class, ttl, rdatas, hint_pointer_vec)?;
+            let n_added =
+                this.add_rrset(owner, rr_type, class, ttl.into(), rdatas, hint_pointer_vec)?;
             if n_added > u16::MAX as usize {
                 Err(Error::CountOverflow)
             } else if let Some(new_arcount) = this.arcount.checked_add(n_added as u16) {
@@ -757,14 +760,14 @@ impl<'a> Writer<'a> {
         owner: HintedName,
         rr_type: Type,
         class: Class,
-        ttl: Ttl,
+        ttl: u32,
         rdata: &Rdata,
         mut hint_pointer_vec: Option<&mut HintPointerVec>,
     ) -> Result<()> {
         self.most_recent_owner = self.write_hinted_name(owner)?;
         self.try_push_u16(rr_type.into())?;
         self.try_push_u16(class.into())?;
-        self.try_push_u32(ttl.into())?;
+        self.try_push_u32(ttl)?;
 
         // Save two octets for the RDLENGTH field. We must compute and
         // write this field at the end, since it's affected by
@@ -810,7 +813,7 @@ impl<'a> Writer<'a> {
         mut owner: HintedName,
         rr_type: Type,
         class: Class,
-        ttl: Ttl,
+        ttl: u32,
         rdatas: &RdataSet,
         mut hint_pointer_vec: Option<&mut HintPointerVec>,
     ) -> Result<usize> {
@@ -937,7 +940,11 @@ impl<'a> Writer<'a> {
 
         if let Some(ref edns) = self.edns {
             let class = Class::from(edns.udp_payload_size);
-            let ttl = Ttl::from((edns.extended_rcode_upper_bits as u32) << 24);
+            // The OPT TTL field is not a TTL (RFC 6891 § 6.1.3): its upper
+            // octet carries the upper eight bits of the extended RCODE.
+            // It must be written as is, not through Ttl::from, which
+            // maps values above 2^31 - 1 to zero.
+            let ttl = (edns.extended_rcode_upper_bits as u32) << 24;
             self.available += OPT_RECORD_SIZE;
             self.add_rr(
                 HintedName::new(Hint::None, Name::root()),
@@ -980,7 +987,7 @@ impl<'a> Writer<'a> {
                 HintedName::new(Hint::None, &tsig.rr.key_name),
                 Type::TSIG,
                 Qclass::ANY.into(),
-                Ttl::from(0),
+                0,
                 &rdata,
                 None,
             )
